@@ -72,6 +72,11 @@ for t, c in FT.items():
     U.add('or2_' + t, [(c, 1)], [(c, 4), (c, 9)], 'stm(o, glm::orientate2(a[0])); stm(o2, glm::orientate3(a[0]));')
     U.add('qeul_' + t, [(c, 3)], [(c, 4), (c, 9)], 'glm::qua<%s> q(%s(a)); stq(o, q); stm(o2, glm::mat3_cast(q));' % (c, V3))
     U.add('eulq_' + t, [(c, 4)], [(c, 4), (c, 3)], 'auto q=%s(a); auto e=glm::eulerAngles(q); stq(o, glm::qua<%s>(e)); stv(o2, e);' % (Q, c))
+    U.add('aliasm_' + t, [(c, 4)], [(c, 4), (c, 4), (c, 4), (c, 4)],
+          '{ auto r=%s(a); r *= r; stq(o, r); } { auto r=%s(a); glm::qua<%s>& s = r; r *= s; stq(o2, r); } { auto r=%s(a); glm::qua<%s> const& ret = (r *= r); stq(o3, ret); }'
+          ' { auto r=%s(a); glm::qua<%s> const* ps = &r; r *= *ps; r *= *ps; stq(o4, r); }' % (Q, Q, c, Q, c, Q, c))
+    U.add('aliasa_' + t, [(c, 4)], [(c, 4), (c, 4), (c, 4), (c, 4)],
+          '{ auto r=%s(a); r += r; stq(o, r); } { auto r=%s(a); glm::qua<%s>& s = r; r -= s; stq(o2, r); } { auto r=%s(a); r *= r.w; stq(o3, r); } { auto r=%s(a); r /= r.w; stq(o4, r); }' % (Q, Q, c, Q, Q))
     U.add('qc3_' + t, [(c, 9)], [(c, 4)], 'stq(o, glm::quat_cast(ldm<3,3,%s>(a)));' % c)
     U.add('qc4_' + t, [(c, 16)], [(c, 4), (c, 4)], 'auto m=ldm<4,4,%s>(a); stq(o, glm::quat_cast(m)); stq(o2, glm::qua<%s>(m));' % (c, c))
     U.add('pyr_' + t, [(c, 4)], [(c, 3), (c, 3)], 'auto q=%s(a); o[0]=glm::pitch(q); o[1]=glm::yaw(q); o[2]=glm::roll(q); stv(o2, glm::eulerAngles(q));' % Q)
@@ -338,6 +343,23 @@ def job_pivot(lay, t, fns=('qc3', 'qc4')):
         for f in fns:
             n, outs = (3, (0,)) if f == 'qc3' else (4, (0, 1))
             chk(S, Un, '%s_%s' % (f, t), mk(n, outs), box, bounds='every real matrix with entries in [-1,1] (not only rotation matrices); all four largest-candidate branches; ties between candidates excluded')
+    return run
+
+def job_alias(lay, t):
+    """compound assignment with the object itself on the right-hand side (directly, through a reference, through a pointer): the result is the binary operator applied to two copies"""
+    Un = UNITS[lay]
+    def run(S):
+        def specm(i, o, T):
+            q = i[0]; qq = qmul(q, q); q4 = qmul(qq, qq)
+            return (vec_goals('r*=r == q*q', o[0], qq) + vec_goals('r*=ref(r) == q*q', o[1], qq) + vec_goals('returned reference of r*=r == q*q', o[2], qq)
+                    + vec_goals('r*=*ptr(r) twice == (q*q)*(q*q)', o[3], q4))
+        chk(S, Un, 'aliasm_' + t, specm, lambda i: [z3.And(x >= -8, x <= 8) for x in i[0]], bounds='all quaternions with components in [-8,8] (no unit-length hypothesis); Hamilton product of two copies')
+        def speca(i, o, T):
+            q = i[0]; w = q[0]
+            return (vec_goals('r+=r == q+q', o[0], [2 * x for x in q]) + vec_goals('r-=ref(r) == q-q', o[1], [ZERO] * 4) + vec_goals('r*=r.w == q*w', o[2], [x * w for x in q])
+                    + [('r/=r.w == q/w [%d]' % k, REq(rv(o[3][k]) * w, q[k])) for k in range(4)])
+        chk(S, Un, 'aliasa_' + t, speca, lambda i: [z3.And(x >= -8, x <= 8) for x in i[0]] + [i[0][0] * i[0][0] >= z3.RealVal('1/16')],
+            bounds='all quaternions with components in [-8,8], |w| >= 1/4 (scalar taken from the object itself)')
     return run
 
 def job_product(lay, t):
@@ -762,7 +784,7 @@ def jobs(tier):
         for t in FT:
             J += [('rotate_%s_%s' % (lay, t), job_rotate(lay, t)), ('roundtrip_%s_%s' % (lay, t), job_roundtrip(lay, t, ('rt', 'rt4') if q else ('rt', 'rt4', 'rtc', 'rtg'))),
                   ('product_%s_%s' % (lay, t), job_product(lay, t)), ('axisangle_%s_%s' % (lay, t), job_axisangle(lay, t)), ('twovec_%s_%s' % (lay, t), job_twovec(lay, t)),
-                  ('ctor_%s_%s' % (lay, t), job_ctor(lay, t)), ('pivot_%s_%s' % (lay, t), job_pivot(lay, t)), ('eulerq_%s_%s' % (lay, t), job_eulerq(lay, t))]
+                  ('ctor_%s_%s' % (lay, t), job_ctor(lay, t)), ('pivot_%s_%s' % (lay, t), job_pivot(lay, t)), ('alias_%s_%s' % (lay, t), job_alias(lay, t)), ('eulerq_%s_%s' % (lay, t), job_eulerq(lay, t))]
     for t in FT:
         names = ['X', 'Y', 'Z', 'dX', 'dY', 'dZ'] + EULER2 + EULER3 + ['ypr', 'or2', 'qeul']
         J.append(('euler_wxyz_%s' % t, job_euler(t, ['qeul'], 'wxyz')))
